@@ -55,7 +55,7 @@ pub enum Sk {
 }
 
 /// counters whose loop invariants come in a strong (unchanged at the back edge) or weak (monotone) form
-pub const COUNTERS: [&str; 4] = ["wsv", "nts", "allocs", "callbacks"];
+pub const COUNTERS: [&str; 6] = ["wsv", "nts", "allocs", "callbacks", "vret", "nret"];
 
 #[derive(Default, Clone, Debug)]
 pub struct Summary {
@@ -73,6 +73,8 @@ pub fn ev_counter(name: &str) -> Option<&'static str> {
         "ev_store_nt_bin" => Some("nts"),
         "ev_alloc" => Some("allocs"),
         "ev_callback_locked" | "ev_callback" => Some("callbacks"),
+        "ev_retire_value" => Some("vret"),
+        "ev_retire_node" => Some("nret"),
         _ => None,
     }
 }
